@@ -23,7 +23,7 @@ var c14Toggles = []string{
 	"sc-no-item", "sc-no-headline", "sc-name", "sc-url", "sc-description", "sc-image", "sc-publisher", "sc-publisher-org",
 	"sc-author", "sc-author-person", "sc-rel-author", "sc-date", "sc-section", "sc-year", "sc-holder", "sc-imageobject", "sc-second-item",
 	// IE reading view
-	"ie-no-title", "ie-copyright", "ie-byline", "ie-dateline", "ie-displaydate", "ie-publisher", "ie-figure",
+	"ie-no-title", "ie-copyright", "ie-byline", "ie-dateline", "ie-displaydate", "ie-publisher", "ie-figure", "ie-metas-in-body", "sc-rel-author-empty-first",
 }
 
 var c14Orders = [][3]string{{"og", "sc", "ie"}, {"og", "ie", "sc"}, {"sc", "og", "ie"}, {"sc", "ie", "og"}, {"ie", "og", "sc"}, {"ie", "sc", "og"}}
@@ -147,6 +147,9 @@ func c14Doc(cf *c14Cfg) string {
 			}
 		}
 		if on("sc-rel-author") {
+			if on("sc-rel-author-empty-first") {
+				sb.WriteString("<a rel=\"author\" href=\"/a\"><img src=\"http://sc.example/avatar.png\"></a>")
+			}
 			sb.WriteString("<a rel=\"author\" href=\"/a\">SCrelauthor</a>")
 		}
 		if on("sc-imageobject") {
@@ -194,6 +197,16 @@ func c14Doc(cf *c14Cfg) string {
 		opt = meta("name", "IE_RM_OFF", cf.optout)
 	}
 	t := &ora.Tok{}
+	if on("ie-metas-in-body") {
+		// the IE tags (and the opt-out tag) end up in <body>, as when an author puts a tracking
+		// image into <head> and the parser closes the head early
+		hsNoIE := strings.Replace(hs.String(), head["ie"], "", 1)
+		ieBlock := ""
+		if cf.only == "" || cf.only == "ie" {
+			ieBlock = head["ie"]
+		}
+		return "<html><head><title>" + ora.DefaultTitle + "</title>" + hsNoIE + "</head><body>" + ieBlock + opt + "<div class=\"main\"><p>" + t.W(21) + "</p>" + bs.String() + "<p>" + t.W(22) + "</p><p>" + t.W(23) + "</p></div></body></html>"
+	}
 	return "<html><head><title>" + ora.DefaultTitle + "</title>" + hs.String() + opt + "</head><body><div class=\"main\"><p>" + t.W(21) + "</p>" + bs.String() + "<p>" + t.W(22) + "</p><p>" + t.W(23) + "</p></div></body></html>"
 }
 
@@ -472,7 +485,7 @@ func init() {
 	eng.Register(&eng.Prop{
 		ID:        "C14",
 		DesignRef: "§5 C14",
-		Rule: "base page with all three sources (qualified OpenGraph article, schema.org Article item with headline, IE tags with title); every set of <= 3 (quick) / <= 4 (thorough) of 39 feature toggles (drop a required OG property, OG type profile/website, OG optional/article/profile properties, second image, an article property placed before og:type; schema.org item absent, name/url/description/image/publisher string|Organization/author string|Person/rel=author/date/section/copyright year+holder/ImageObject/second item; IE title absent, copyright, byline, dateline, displaydate, publisher attribute, captioned figure), " +
+		Rule: "base page with all three sources (qualified OpenGraph article, schema.org Article item with headline, IE tags with title); every set of <= 3 (quick) / <= 4 (thorough) of 41 feature toggles (drop a required OG property, OG type profile/website, OG optional/article/profile properties, second image, an article property placed before og:type; schema.org item absent, name/url/description/image/publisher string|Organization/author string|Person/rel=author/date/section/copyright year+holder/ImageObject/second item; IE title absent, copyright, byline, dateline, displaydate, publisher attribute, captioned figure, the IE and opt-out meta tags placed in <body>; an empty rel=author element before the real one), " +
 			"with all 6 block orders x opt-out {absent,true,false} for sets of <= 2 (quick) / <= 3 (thorough) toggles and 2 orders otherwise; every value is a token naming source and field. Oracle: opt-out => zero MarkupInfo; otherwise each scalar field = first non-empty of the values the sources yield alone (4 executions per case: full, OG only, schema.org only, IE only), Images wholesale from the first non-empty source, Article wholesale from the first source that has a record, an unqualified OpenGraph block yields nothing, and - directly from the tokens - each scalar field holds the token of the highest-precedence source whose markup offers it (judged when no source offers the field in two ways). " +
 			"Non-trivial = two sources supply different values for a field (or two have an article record), or OpenGraph is disqualified.",
 		Enumerate: c14Enumerate,
